@@ -6,6 +6,34 @@ ROOT = os.path.dirname(os.path.dirname(os.path.abspath(__file__)))
 
 # id -> (level, technique, text, note, design_ref)
 CHECKS = {
+    "C01": ("model_checking",
+            "explicit-state exploration of the rewrite transition system on the real rules (all starts x 11 configs x all nodes), grid oracle with degree bounds",
+            "State = expression tree, transition = (rule configuration, node) executed by the real apply_to on clone_from_root. Every "
+            "applicable transition of every start state up to the size bound (and of their rewrite closure to the stated depth) is "
+            "executed and the value compared on a rational grid; inside the rational fragment the degree argument makes equality decided.",
+            "independent exact evaluator and the degree-bound argument (DESIGN.md section 3); bounds on tree size and depth", "5 C01"),
+    "C02": ("model_checking",
+            "explicit-state exploration of the rewrite system from equation states; difference-function oracle",
+            "All equation start states of the term-structured, ancestor-context and repository families, closed under rewrites to the stated "
+            "depth; every applicable transition is executed on the real code and the solution sets compared; balanced moves must not "
+            "introduce undefined points and must keep an equation.",
+            "solution sets compared through L-R on a rational grid (proportional => equal; undecided cases counted, never flagged)", "5 C02"),
+    "C06": ("model_checking",
+            "explicit-state exploration: every state x every configuration x every node; snapshot oracle for purity",
+            "For every explored state can_apply_to is called on every node under every configuration with a before/after snapshot of the "
+            "whole tree, repeated, and repeated on an independently built identical tree; find_nodes/find_node compared with the in-order "
+            "applicable list; every applicable transition executed and required to return an expression.",
+            "snapshot covers links, payload, ids, classes, _changed, r_index", "5 C06"),
+    "C07": ("model_checking",
+            "explicit-state exploration of all applicable transitions with link audit / context / isolation oracles",
+            "Every applicable transition of every explored state is executed on clone_from_root; the result is audited (links, arity, no "
+            "shared objects, variable set, replacement position, context subtrees unchanged) and the source tree snapshot is compared.",
+            "footprint root: node / parent (associative) / root (balanced move)", "5 C07"),
+    "C14": ("exploration",
+            "bounded exhaustive enumeration of all tree shapes x orders x stop positions on the real code",
+            "Every binary tree shape up to the bound (one-child nodes included), the three traversal orders, every stop position and every "
+            "look-up query, compared with reference recursions over the links.",
+            "reference traversals are the textbook recursions", "5 C14"),
     "C15": ("exploration",
             "bounded exhaustive enumeration of all tree shapes x all nodes on the real code",
             "Every binary tree shape up to the node bound and every node in it is rotated on freshly built real "
